@@ -11,12 +11,42 @@ from ..data import HERAError, Token
 from ..utils import register_to_index
 
 
+# Expressions nested more deeply than this are refused, so that neither the parser nor
+# the recursive walks over the tree (evaluation, printing) can exhaust Python's stack.
+MAX_DEPTH = 100
+
+
 def parse(line: str) -> "SeqNode":
     """
     Return a parse tree for the line of code. Raise a SyntaxError if it is not well-
     formatted.
     """
-    return MiniParser(Lexer(line)).parse()
+    try:
+        tree = MiniParser(Lexer(line)).parse()
+    except RecursionError:
+        raise SyntaxError("expression is too deeply nested")
+
+    if is_deeper_than(tree, MAX_DEPTH):
+        raise SyntaxError("expression is too deeply nested")
+    return tree
+
+
+def is_deeper_than(tree: "SeqNode", limit: int) -> bool:
+    """Return True if some expression of the tree is nested more than `limit` deep."""
+    # An explicit stack, since the point is not to recurse.
+    stack = [(node, 1) for node in tree.seq]
+    while stack:
+        node, depth = stack.pop()
+        if depth > limit:
+            return True
+        if isinstance(node, MemoryNode):
+            stack.append((node.address, depth + 1))
+        elif isinstance(node, PrefixNode):
+            stack.append((node.arg, depth + 1))
+        elif isinstance(node, InfixNode):
+            stack.append((node.left, depth + 1))
+            stack.append((node.right, depth + 1))
+    return False
 
 
 class MiniParser:
